@@ -185,13 +185,26 @@ def check_C01(ctx, unit):
                             else:
                                 problems.append("overhead modified by %s at %s" % (_strip_ids(canon(x)), x.loc))
                 hdr_loop = False
-                for blk in f.blocks.values():
-                    if blk.termkind in ("WhileStmt", "ForStmt", "DoStmt") and blk.cond is not None:
-                        c = f.node(blk.cond).strip()
-                        if c.kind == "BinaryOperator" and c.op in ("<", ">", "<=", ">="):
-                            ops = [std_unwrap(x) for x in c.children]
-                            if any(o.kind == "DeclRefExpr" and o.d["d"] == ov for o in ops) and any(o.cv() is not None for o in ops):
-                                hdr_loop = True
+                # size of the object that is constructed at the start of the slab (from the record layout, not from the
+                # spelling of the sizeof in the loop)
+                hdr_rec = [r for r in unit.records if r["qn"] == (fr[0].get("alloct") or "")]
+                hdr_size = hdr_rec[0].get("size") if hdr_rec else None
+                if hdr_size is None:
+                    raise AnalysisBroken("anchor vanished: size of the slab header record %s" % fr[0].get("allocrt"))
+                for nl_ in flow.natural_loops(f):
+                    cnd = nl_.cond
+                    if cnd is None:
+                        continue
+                    rel = flow.fact_relation(cnd, True)       # the loop continues while this holds
+                    if rel is None:
+                        continue
+                    a_, op_, b_ = rel
+                    if std_unwrap(a_).kind == "DeclRefExpr" and std_unwrap(a_).d["d"] == ov and std_unwrap(b_).cv() is not None and op_ in ("<", "<="):
+                        hdr_loop = True
+                        reach = std_unwrap(b_).cv() + (1 if op_ == "<=" else 0)     # smallest overhead at which the loop stops
+                        if reach < hdr_size:
+                            problems.append("the header loop stops once overhead >= %d, but the slab header (%s) occupies %d bytes: the first "
+                                            "objects overlap the header" % (reach, (fr[0].get("allocrt") or "").split("::")[-1], hdr_size))
                 if not hdr_loop:
                     problems.append("no loop growing overhead until it covers sizeof(slab_frame)")
                 if item is None:
@@ -649,6 +662,35 @@ def check_C02(ctx, unit):
                 problems.append("no normal exit")
             ctx.inst("E.reuse-before-map", "%s::free_in_slab_%s" % (POOL, tag), not problems, f.loc,
                      "; ".join(sorted(set(problems))) if problems else "re-inserted iff `available` was null before the push (both entry values, path-sensitive)", f)
+
+
+def check_stale_after_remove(ctx, unit, rule="K.stale-after-remove"):
+    """rbtree::remove(x) clears all five links of x: any navigation from x (successor, predecessor, get_left, get_right,
+    get_parent) after the removal, before x is inserted again, returns null instead of the neighbour the caller
+    expects.  Applies to every user of an intrusive tree in the pool."""
+    ctx.rule(rule, "no tree navigation (successor/predecessor/get_left/get_right/get_parent) starts from a node after that "
+             "node was removed from the tree (remove() clears its links); the neighbour must be read before the removal", 2)
+    NAV = ("successor", "predecessor", "get_left", "get_right", "get_parent")
+    for inst in pool_instantiations(unit):
+        tag = inst[len(POOL):]
+        for f in pool_fns(unit, inst):
+            rms = [n for n in f.events() if n.kind == "CXXMemberCallExpr" and n.callee and n.callee["n"] == "remove" and n.args
+                   and "tree" in (n.callee.get("cls") or "") and path(n.args[0])]
+            if not rms:
+                continue
+            navs = [n for n in f.events() if n.is_call() and n.callee and n.callee["n"] in NAV and n.args and "tree" in (n.callee.get("cls") or "")]
+            ins = [n for n in f.events() if n.kind == "CXXMemberCallExpr" and n.callee and n.callee["n"] == "insert" and n.args
+                   and "tree" in (n.callee.get("cls") or "")]
+            for k, r in enumerate(sorted(rms, key=lambda n: _lockey(n.loc))):
+                xp = path(r.args[0])
+                bad = []
+                for nv in navs:
+                    if path(nv.args[0]) == xp and f.reaches(r.id, nv.id):
+                        if any(path(i_.args[0]) == xp and f.reaches(r.id, i_.id) and f.reaches(i_.id, nv.id) for i_ in ins):
+                            continue
+                        bad.append("%s(%s) at %s after the node was removed at %s" % (nv.callee["n"], ".".join(xp).split("#")[0], nv.loc, r.loc))
+                ctx.inst(rule, "%s::%s: remove #%d%s" % (POOL, f.name, k + 1, tag), not bad, r.loc,
+                         "; ".join(bad) if bad else "no navigation from the removed node afterwards", f)
 
 
 def _is_zero_fact(cond, truth, did):
